@@ -896,6 +896,8 @@ def enc_props(p):
 
 
 def c14(run):
+    import framework as _fw
+    _fw.environment_projection(run)
     rng = random.Random(run.seed)
     quick = run.tier == "quick"
     import yaml
